@@ -208,3 +208,739 @@ func runC09Routers(c *Ctx) {
 		c.Undecided("router Consumer methods", "-", "none found")
 	}
 }
+
+// ---------- C13.R8 (shared as C12.R6 and C14.R6): component configs are decoded from a sub-Conf ----------
+//
+// A Conf remembers, for every value that came out of a provider, the original text next to the parsed value; that
+// is what lets `${env:X}` = "0123" land unchanged in a string (or opaque) field. The memory lives in the Conf,
+// not in maps decoded from it. The per-component decoding must therefore run on conf.Sub(id) of the loaded Conf –
+// never on a Conf rebuilt with NewFromStringMap from an already decoded map.
+func runConfSubProvenance(c *Ctx, ruleID string) {
+	p := c.P
+	c.Rule(ruleID, "PROV", "the per-component configuration is decoded from a sub-Conf (Sub) of the loaded Conf, which keeps the original text of provider-supplied values – never from a Conf rebuilt out of an already decoded map", 1)
+	pk := p.Pkg("otelcol/internal/configunmarshaler")
+	if pk == nil {
+		c.Anchor("otelcol/internal/configunmarshaler")
+		return
+	}
+	isConfPtr := func(t types.Type) bool {
+		pt, ok := t.(*types.Pointer)
+		return ok && typeIs(pt.Elem(), modPrefix+"/confmap", "Conf")
+	}
+	n := 0
+	for _, fn := range p.AllSrcFuncs(pk) {
+		if fn.Parent() != nil {
+			continue
+		}
+		var confParam *ssa.Parameter
+		for _, prm := range fn.Params {
+			if isConfPtr(prm.Type()) {
+				confParam = prm
+			}
+		}
+		if confParam == nil {
+			continue
+		}
+		for _, ci := range calls(fn, func(ci ssa.CallInstruction) bool {
+			f := calleeOf(ci)
+			return f != nil && f.Name() == "Unmarshal" && recvNamed(f) != nil && recvNamed(f).Obj().Name() == "Conf" && len(ci.Common().Args) >= 2
+		}) {
+			recv := strip(ci.Common().Args[0])
+			if recv == ssa.Value(confParam) {
+				continue // decoding of the id → raw map table from the whole Conf
+			}
+			n++
+			okSub := false
+			if ex, ok := recv.(*ssa.Extract); ok && ex.Index == 0 {
+				if call, ok := ex.Tuple.(*ssa.Call); ok {
+					if f := calleeOf(call); f != nil && f.Name() == "Sub" && recvNamed(f) != nil && recvNamed(f).Obj().Name() == "Conf" && strip(call.Call.Args[0]) == ssa.Value(confParam) {
+						okSub = true
+					}
+				}
+			}
+			c.Check(okSub, "component configuration in "+fnName(fn)+" is decoded from conf.Sub(id)", p.Pos(ci.Pos()), "receiver is conf.Sub(…) of the function's Conf", "the component configuration is decoded from a Conf that is not a Sub of the loaded one (e.g. rebuilt from the decoded raw map): the original text of provider-supplied values is lost, so `${env:X}` holding 0123, true or 0xCAFE no longer fits a string or opaque field – decoding fails and prints the value, or stores something else than was written")
+		}
+	}
+	if n == 0 {
+		c.Undecided("per-component Unmarshal in configunmarshaler", "-", "no decoding call on a derived Conf found")
+	}
+}
+
+// ---------- C13.R9: omitempty only where the default is the zero value ----------
+//
+// Conf.Marshal drops a field tagged `omitempty` when it holds the zero value. If the field's default is non-zero,
+// an explicitly written zero disappears from the effective configuration that is handed to extensions, and
+// re-loading that configuration yields the default instead of what was written.
+// omitEmptyExempt: fields whose zero value cannot reach the marshaller, confirmed by reading the code and by a
+// probe (one symbol, one reason each).
+var omitEmptyExempt = map[string]string{
+	"receiver/otlpreceiver.HTTPConfig.TracesURLPath":  "Config.Unmarshal rewrites an empty path to \"/\" (sanitizeURLPath) before the configuration is marshalled, so a written empty value is still reflected",
+	"receiver/otlpreceiver.HTTPConfig.MetricsURLPath": "same as TracesURLPath",
+	"receiver/otlpreceiver.HTTPConfig.LogsURLPath":    "same as TracesURLPath",
+}
+
+func runC13OmitEmpty(c *Ctx) {
+	p := c.P
+	c.Rule("R9", "TAB", "a configuration field tagged `omitempty` is never given a non-zero value by a default-configuration constructor (function whose name contains Default): otherwise an explicitly written zero is dropped from the marshalled effective configuration and comes back as the default", 8)
+	n := 0
+	for _, pk := range p.Pkgs {
+		if !strings.HasPrefix(pk.PkgPath, modPrefix) || strings.Contains(pk.PkgPath, "/cmd/") || strings.Contains(pk.PkgPath, "/internal/tools") {
+			continue
+		}
+		for _, fn := range p.AllSrcFuncs(pk) {
+			if !strings.Contains(strings.ToLower(rootFn(fn).Name()), "default") {
+				continue
+			}
+			allInstrs(fn, func(in ssa.Instruction) {
+				st, ok := in.(*ssa.Store)
+				if !ok {
+					return
+				}
+				fa, ok := st.Addr.(*ssa.FieldAddr)
+				if !ok {
+					return
+				}
+				sT := derefStruct(fa.X.Type())
+				if sT == nil {
+					return
+				}
+				tag := sT.Tag(fa.Field)
+				if !strings.Contains(tag, "mapstructure:") {
+					return
+				}
+				ms := tag[strings.Index(tag, "mapstructure:\"")+len("mapstructure:\""):]
+				if i := strings.Index(ms, "\""); i >= 0 {
+					ms = ms[:i]
+				}
+				parts := strings.Split(ms, ",")
+				omit := false
+				for _, q := range parts[1:] {
+					if q == "omitempty" {
+						omit = true
+					}
+				}
+				if !omit {
+					return
+				}
+				// only stores into a value this function builds (literal / fresh variable)
+				if _, isAlloc := strip(fa.X).(*ssa.Alloc); !isAlloc {
+					if _, isAlloc2 := fa.X.(*ssa.Alloc); !isAlloc2 {
+						return
+					}
+				}
+				k, isConst := st.Val.(*ssa.Const)
+				if !isConst {
+					// a scalar default computed from something else (e.g. copied from http.DefaultTransport) is not
+					// provably zero; structs, maps, slices and pointers (nested constructors) are not decided here
+					if b, ok := st.Val.Type().Underlying().(*types.Basic); ok && b.Info()&(types.IsNumeric|types.IsString|types.IsBoolean) != 0 {
+						n++
+						owner := "?"
+						if nn := namedOf(fa.X.Type()); nn != nil {
+							owner = relPkg(nn.Obj().Pkg().Path()) + "." + nn.Obj().Name()
+						}
+						c.Bad(fmt.Sprintf("default of omitempty field %s.%s (key %q) set in %s is the zero value", owner, sT.Field(fa.Field).Name(), parts[0], fnName(rootFn(fn))), p.Pos(st.Pos()), "the field is tagged omitempty but its default is a computed, not provably zero, value: an explicitly written zero is dropped from the marshalled effective configuration and comes back as the default")
+					}
+					return
+				}
+				n++
+				owner := "?"
+				if nn := namedOf(fa.X.Type()); nn != nil {
+					owner = relPkg(nn.Obj().Pkg().Path()) + "." + nn.Obj().Name()
+				}
+				if why, ok := omitEmptyExempt[owner+"."+sT.Field(fa.Field).Name()]; ok {
+					c.OK(fmt.Sprintf("default of omitempty field %s.%s (key %q) set in %s is the zero value", owner, sT.Field(fa.Field).Name(), parts[0], fnName(rootFn(fn))), p.Pos(st.Pos()), "exempt: "+why)
+					return
+				}
+				c.Check(isZeroValue(k), fmt.Sprintf("default of omitempty field %s.%s (key %q) set in %s is the zero value", owner, sT.Field(fa.Field).Name(), parts[0], fnName(rootFn(fn))), p.Pos(st.Pos()), "zero", fmt.Sprintf("the field is tagged omitempty but its default is %s: a configuration that explicitly writes the zero value loses the key when the effective configuration is marshalled, and a reload yields the default instead", k.String()))
+			})
+		}
+	}
+	if n == 0 {
+		c.Undecided("constant defaults of omitempty fields", "-", "none found")
+	}
+}
+
+// ---------- C13.R10: every ConfigWatcher gets its own copy of the effective configuration ----------
+func runC13NotifyClone(c *Ctx) {
+	p := c.P
+	c.Rule("R10", "PROV", "each ConfigWatcher extension is notified with a Conf that was built for that one call (created inside the same loop iteration): what one extension does to the configuration it received cannot change what another extension sees", 1)
+	m := p.LookupMethod("service/extensions", "Extensions", "NotifyConfig")
+	if m == nil {
+		c.Anchor("service/extensions.Extensions.NotifyConfig")
+		return
+	}
+	fn := p.SSAFunc(m)
+	n := 0
+	for _, ci := range calls(fn, func(ci ssa.CallInstruction) bool {
+		return ci.Common().IsInvoke() && ci.Common().Method.Name() == "NotifyConfig"
+	}) {
+		n++
+		args := ci.Common().Args
+		arg := strip(args[len(args)-1])
+		hdr, body := innermostLoop(ci.Block())
+		def, isCall := arg.(*ssa.Call)
+		fresh := isCall && calleeOf(def) != nil && calleeOf(def).Pkg() != nil && calleeOf(def).Pkg().Path() == modPrefix+"/confmap" && strings.HasPrefix(calleeOf(def).Name(), "New")
+		inIter := hdr == nil || (isCall && body[def.Block()])
+		c.Check(fresh && inIter, "ConfigWatcher.NotifyConfig receives a per-call copy", p.Pos(ci.Pos()), "confmap.New*(…) evaluated in the same iteration", "the Conf handed to the watcher is not created for this call (shared between iterations, or the collector's own Conf): an extension that modifies what it received changes the effective configuration seen by the extensions notified after it")
+	}
+	if n == 0 {
+		c.Undecided("ConfigWatcher notification", p.Pos(fn.Pos()), "no NotifyConfig invocation found")
+	}
+}
+
+// ---------- C14.R7: reflective renderers never read a named string type's raw content ----------
+//
+// reflect.Value.String() and Kind()==String match every type whose underlying type is string – including
+// configopaque.String – and return the raw content without going through the type's rendering methods. The
+// reflective walkers that render configuration values into messages (validation paths) must take the raw text only
+// from an exact `.(string)` assertion and must try fmt.Stringer before any generic formatting.
+func runC14Reflect(c *Ctx) {
+	p := c.P
+	c.Rule("R7", "TAINT", "the reflective validator renders map keys and values only through an exact .(string) assertion, fmt.Stringer or fmt formatting of Interface(): it never calls reflect.Value.String()/Bytes() (which return the raw content of any string-kinded type, opaque ones included), and every fmt formatting of a reflected value is on the not-a-Stringer side", 2)
+	pk := p.Pkg("confmap/xconfmap")
+	if pk == nil {
+		c.Anchor("confmap/xconfmap")
+		return
+	}
+	n := 0
+	for _, fn := range p.AllSrcFuncs(pk) {
+		hasReflectParam := false
+		for _, prm := range rootFn(fn).Params {
+			if typeIs(prm.Type(), "reflect", "Value") {
+				hasReflectParam = true
+			}
+		}
+		if !hasReflectParam {
+			continue
+		}
+		raw := calls(fn, func(ci ssa.CallInstruction) bool {
+			f := calleeOf(ci)
+			return f != nil && recvNamed(f) != nil && recvNamed(f).Obj().Pkg() != nil && recvNamed(f).Obj().Pkg().Path() == "reflect" && recvNamed(f).Obj().Name() == "Value" && (f.Name() == "String" || f.Name() == "Bytes")
+		})
+		n++
+		pos := p.Pos(fn.Pos())
+		if len(raw) > 0 {
+			pos = p.Pos(raw[0].Pos())
+		}
+		c.Check(len(raw) == 0, fnName(fn)+" does not read raw string content through reflect", pos, "no reflect.Value.String/Bytes", "reflect.Value.String()/Bytes() returns the raw content of every string-kinded value, including configopaque.String: a secret used as a map key (or value) appears in clear in validation error paths")
+		// formatting with %v / Sprint of Interface() only after the Stringer test failed
+		for _, ci := range calls(fn, func(ci ssa.CallInstruction) bool {
+			f := calleeOf(ci)
+			return f != nil && f.Pkg() != nil && f.Pkg().Path() == "fmt" && strings.HasPrefix(f.Name(), "Sprint")
+		}) {
+			usesIface := false
+			for _, a := range ci.Common().Args {
+				els, _ := variadicElems(a)
+				for _, e := range append(els, a) {
+					for v := range backSlice(e) {
+						if cc, ok := v.(*ssa.Call); ok && calleeOf(cc) != nil && calleeOf(cc).Name() == "Interface" {
+							usesIface = true
+						}
+					}
+				}
+			}
+			if !usesIface {
+				continue
+			}
+			// %T-only formats are harmless
+			if fs, ok := constString(ci.Common().Args[0]); ok && !strings.Contains(strings.ReplaceAll(fs, "%T", ""), "%") {
+				continue
+			}
+			guarded := false
+			for _, g := range guardsOf(ci.Block()) {
+				v, br := boolOf(g)
+				if ex, ok := v.(*ssa.Extract); ok && !br && ex.Index == 1 {
+					if ta, ok := ex.Tuple.(*ssa.TypeAssert); ok && ta.CommaOk {
+						if nn := namedOf(ta.AssertedType); nn != nil && nn.Obj().Name() == "Stringer" {
+							guarded = true
+						}
+					}
+				}
+			}
+			c.Check(guarded, "value formatting in "+fnName(fn)+" happens only when the value is not a Stringer", p.Pos(ci.Pos()), "on the failed side of the fmt.Stringer assertion", "a reflected value is formatted generically without first trying its String method")
+		}
+	}
+	if n == 0 {
+		c.Undecided("reflective renderers in xconfmap", "-", "none found")
+	}
+}
+
+// ---------- C16.R6–R8 ----------
+func runC16More(c *Ctx) {
+	p := c.P
+	pk := p.Pkg("config/confighttp")
+	if pk == nil {
+		c.Anchor("config/confighttp")
+		return
+	}
+	// R6: defaults only replace an absent list
+	c.Rule("R6", "TAB", "the server substitutes the default compression algorithms only for an absent (nil) list: the substitution is guarded by a nil comparison of the configured list, not by its length – an explicitly empty list keeps every encoding disabled", 1)
+	n := 0
+	for _, fn := range p.AllSrcFuncs(pk) {
+		allInstrs(fn, func(in ssa.Instruction) {
+			st, ok := in.(*ssa.Store)
+			if !ok {
+				return
+			}
+			_, path := fieldChain(st.Addr)
+			if len(path) == 0 || path[len(path)-1] != "CompressionAlgorithms" {
+				return
+			}
+			// value is a package-level default
+			isDefault := false
+			for v := range backSlice(st.Val) {
+				if g, ok := v.(*ssa.Global); ok && strings.Contains(strings.ToLower(g.Name()), "default") {
+					isDefault = true
+				}
+			}
+			if !isDefault {
+				return
+			}
+			n++
+			okNil, lenTest := false, false
+			for _, g := range guardsOf(st.Block()) {
+				if op, x, y, ok := cmpOf(g); ok {
+					if op == token.EQL && (isNilConst(x) || isNilConst(y)) {
+						okNil = true
+					}
+					for _, o := range []ssa.Value{x, y} {
+						if call, ok := o.(*ssa.Call); ok && builtinName(call) == "len" {
+							lenTest = true
+						}
+					}
+				}
+			}
+			c.Check(okNil && !lenTest, "default compression algorithms replace only a nil list in "+fnName(fn), p.Pos(st.Pos()), "guard: list == nil", "the defaults are substituted under a length test: `compression_algorithms: []` (all encodings disabled) silently enables every default algorithm, so a request with a not-enabled Content-Encoding reaches the handler instead of being rejected with 400")
+		})
+	}
+	if n == 0 {
+		c.Undecided("default compression algorithm substitution", "-", "not found")
+	}
+
+	// R7: the outgoing compressed request is a new request over the compressed buffer
+	c.Rule("R7", "PROV", "the client's compressing round tripper forwards a request created over the compressed buffer (http.NewRequest*), so that body, ContentLength and GetBody all describe the compressed bytes; a clone of the caller's request is accepted only if its GetBody is replaced", 1)
+	n = 0
+	for _, fn := range p.AllSrcFuncs(pk) {
+		if fn.Parent() != nil || fn.Name() != "RoundTrip" || fn.Signature.Recv() == nil || len(fn.Params) != 2 {
+			continue
+		}
+		// only the compressing one: references a compression type / compressor field
+		T := recvNamedOfFn(fn)
+		if T == nil || !strings.Contains(strings.ToLower(T.Obj().Name()), "compress") {
+			continue
+		}
+		for _, ci := range calls(fn, func(ci ssa.CallInstruction) bool {
+			return ci.Common().IsInvoke() && ci.Common().Method.Name() == "RoundTrip"
+		}) {
+			arg := ci.Common().Args[0]
+			if strip(arg) == ssa.Value(fn.Params[1]) {
+				continue // uncompressed pass-through of the caller's request
+			}
+			n++
+			fromNew, fromClone, setsGetBody := false, false, false
+			for v := range backSlice(arg) {
+				if cc, ok := v.(*ssa.Call); ok {
+					if f := calleeOf(cc); f != nil {
+						if f.Pkg() != nil && f.Pkg().Path() == "net/http" && strings.HasPrefix(f.Name(), "NewRequest") {
+							fromNew = true
+						}
+						if f.Name() == "Clone" && recvNamed(f) != nil && recvNamed(f).Obj().Name() == "Request" {
+							fromClone = true
+						}
+					}
+				}
+			}
+			allInstrs(fn, func(in ssa.Instruction) {
+				if st, ok := in.(*ssa.Store); ok {
+					if _, path := fieldChain(st.Addr); len(path) > 0 && path[len(path)-1] == "GetBody" {
+						setsGetBody = true
+					}
+				}
+			})
+			c.Check(fromNew || (fromClone && setsGetBody), "compressed request forwarded by "+fnName(fn)+" is built over the compressed buffer", p.Pos(ci.Pos()), "http.NewRequest*(…, compressed buffer)", "the forwarded request is a clone of the caller's request with only Body/ContentLength swapped: it keeps the caller's GetBody, which yields the uncompressed body – when the transport replays the request (dropped keep-alive connection) uncompressed bytes are sent under a compressed Content-Encoding")
+		}
+	}
+	if n == 0 {
+		c.Undecided("compressing round tripper", "-", "no forwarded compressed request found")
+	}
+
+	// R8: the zstd decoder accepts every window its paired encoder can advertise
+	c.Rule("R8", "BOUND", "the server's zstd decoder is not limited to a window smaller than the largest one the client-side encoder can advertise (8 MiB for the higher levels): no WithDecoderMaxWindow below 8 MiB", 1)
+	bad := false
+	nz := 0
+	for _, fn := range p.AllSrcFuncs(pk) {
+		for _, ci := range calls(fn, func(ci ssa.CallInstruction) bool {
+			f := calleeOf(ci)
+			return f != nil && f.Pkg() != nil && strings.HasSuffix(f.Pkg().Path(), "klauspost/compress/zstd")
+		}) {
+			f := calleeOf(ci)
+			if f.Name() == "NewReader" {
+				nz++
+			}
+			if f.Name() == "WithDecoderMaxWindow" {
+				k, ok := constInt(ci.Common().Args[0])
+				if !ok || k < 8<<20 {
+					bad = true
+					c.Bad("zstd decoder window covers the encoder's in "+fnName(fn), p.Pos(ci.Pos()), fmt.Sprintf("WithDecoderMaxWindow(%d) is below the 8 MiB window the encoder advertises for levels ≥ 3: larger bodies compressed at those levels fail to decode (`window size exceeded`)", k))
+				}
+			}
+		}
+	}
+	if nz == 0 {
+		c.Undecided("zstd decoder construction", "-", "no zstd.NewReader call found in confighttp")
+	} else if !bad {
+		c.OK("zstd decoder window covers the encoder's", "-", fmt.Sprintf("%d decoder constructions, none with a window limit below 8 MiB", nz))
+	}
+}
+
+// ---------- C17.R6: client metadata hands out copies ----------
+func runC17Metadata(c *Ctx) {
+	p := c.P
+	c.Rule("R6", "OWN", "client.Metadata never hands out its stored value slices: Get returns a freshly allocated copy, so a downstream consumer that edits what it got cannot change the metadata a shard keeps exporting with", 1)
+	m := p.LookupMethod("client", "Metadata", "Get")
+	if m == nil {
+		c.Anchor("client.Metadata.Get")
+		return
+	}
+	fn := p.SSAFunc(m)
+	n := 0
+	for _, r := range returnsOf(fn) {
+		res := resultsOf(r)
+		if len(res) != 1 || isNilConst(res[0]) {
+			continue
+		}
+		n++
+		leaks := false
+		var walk func(v ssa.Value, seen map[ssa.Value]bool)
+		walk = func(v ssa.Value, seen map[ssa.Value]bool) {
+			if seen[v] {
+				return
+			}
+			seen[v] = true
+			switch x := v.(type) {
+			case *ssa.Lookup:
+				leaks = true
+			case *ssa.Extract:
+				walk(x.Tuple, seen)
+			case *ssa.Phi:
+				for _, e := range x.Edges {
+					walk(e, seen)
+				}
+			case *ssa.Slice:
+				walk(x.X, seen)
+			case *ssa.ChangeType:
+				walk(x.X, seen)
+			case *ssa.UnOp:
+				if al, ok := x.X.(*ssa.Alloc); ok {
+					for _, rr := range *al.Referrers() {
+						if st, ok := rr.(*ssa.Store); ok && st.Addr == ssa.Value(al) {
+							walk(st.Val, seen)
+						}
+					}
+				}
+			}
+		}
+		walk(res[0], map[ssa.Value]bool{})
+		c.Check(!leaks, "Metadata.Get returns a copy", p.Pos(r.Pos()), "result is a fresh slice (make+copy / Clone)", "Get returns the slice stored in the metadata map itself: a consumer that modifies the returned values (e.g. scrubs a token) changes the metadata of every later batch of that group, because the batch processor builds a shard's export context once and reuses it")
+	}
+	if n == 0 {
+		c.Undecided("non-nil returns of Metadata.Get", p.Pos(fn.Pos()), "none found")
+	}
+}
+
+// ---------- C18.R6–R8 ----------
+func runC18More(c *Ctx) {
+	p := c.P
+	// R6: limits are widened before they are scaled
+	c.Rule("R6", "BOUND", "the configured MiB limits are converted to 64 bits before they are multiplied into bytes: no widening conversion in the memory limiter is applied to the result of a multiplication/shift/addition carried out in a narrower integer type (which wraps at 4 GiB)", 2)
+	mlpk := p.Pkg("internal/memorylimiter")
+	if mlpk == nil {
+		c.Anchor("internal/memorylimiter")
+		return
+	}
+	nConv := 0
+	for _, fn := range p.AllSrcFuncs(mlpk) {
+		allInstrs(fn, func(in ssa.Instruction) {
+			cv, ok := in.(*ssa.Convert)
+			if !ok {
+				return
+			}
+			to, ok1 := cv.Type().Underlying().(*types.Basic)
+			from, ok2 := cv.X.Type().Underlying().(*types.Basic)
+			if !ok1 || !ok2 || to.Info()&types.IsInteger == 0 || from.Info()&types.IsInteger == 0 {
+				return
+			}
+			size := func(b *types.Basic) int64 { return types.SizesFor("gc", "amd64").Sizeof(b) }
+			if size(to) <= size(from) {
+				return
+			}
+			nConv++
+			bo, isArith := cv.X.(*ssa.BinOp)
+			narrowArith := isArith && (bo.Op == token.MUL || bo.Op == token.SHL || bo.Op == token.ADD)
+			c.Check(!narrowArith, fmt.Sprintf("widening conversion #%d in %s is applied to an operand, not to a narrow result", nConv, fnName(fn)), p.Pos(cv.Pos()), "operand widened first", fmt.Sprintf("the %s result of an arithmetic operation is widened to %s afterwards: the operation itself wraps (a limit_mib or spike_limit_mib of 4096 or more yields a wrong, possibly zero or underflowing, threshold, so the limiter refuses far too early or never)", from.Name(), to.Name()))
+		})
+	}
+	if nConv == 0 {
+		c.Undecided("widening conversions in the memory limiter", "-", "none found")
+	}
+
+	// R7: every signal's processor is a user of the shared limiter
+	c.Rule("R7", "COV", "every create function of the memory limiter processor factory that builds a processor from the shared limiter registers the limiter's start and shutdown with it (all signals agree): each processor counts as a user, so the checker runs from the first user's start until the last user's shutdown", 4)
+	fpk := p.Pkg("processor/memorylimiterprocessor")
+	if fpk == nil {
+		c.Anchor("processor/memorylimiterprocessor")
+		return
+	}
+	nCreate := 0
+	for _, fn := range p.AllSrcFuncs(fpk) {
+		if fn.Parent() != nil {
+			continue
+		}
+		// functions that pass a bound method of the limiter wrapper as the processing function
+		usesProcess := false
+		var startOK, stopOK bool
+		allInstrs(fn, func(in ssa.Instruction) {
+			mc, ok := in.(*ssa.MakeClosure)
+			if !ok {
+				return
+			}
+			f, ok := mc.Fn.(*ssa.Function)
+			if !ok || !strings.HasSuffix(f.Name(), "$bound") {
+				return
+			}
+			name := strings.TrimSuffix(f.Name(), "$bound")
+			switch {
+			case strings.HasPrefix(name, "process"):
+				usesProcess = true
+			case name == "start":
+				startOK = flowsToCallNamed(mc, "WithStart")
+			case name == "shutdown":
+				stopOK = flowsToCallNamed(mc, "WithShutdown")
+			}
+		})
+		if !usesProcess {
+			continue
+		}
+		nCreate++
+		c.Check(startOK && stopOK, fnName(fn)+" registers the limiter's start and shutdown", p.Pos(fn.Pos()), "WithStart(limiter.start), WithShutdown(limiter.shutdown)", fmt.Sprintf("WithStart=%v WithShutdown=%v: this signal's processor is not counted as a user of the shared limiter – used alone the checker never starts (nothing is ever refused), used with others the checker stops while this processor is still running", startOK, stopOK))
+	}
+	if nCreate == 0 {
+		c.Undecided("memory limiter processor create functions", "-", "none found")
+	}
+
+	// R8: a single checker
+	c.Rule("R8", "WHO", "the limit check (measure → decide → store, possibly forcing a GC) is executed only by the one checker goroutine: its only non-test call site is inside the goroutine started under the first-user guard, so no two checks interleave", 1)
+	var check *ssa.Function
+	if m := p.LookupMethod("internal/memorylimiter", "MemoryLimiter", "CheckMemLimits"); m != nil {
+		check = p.SSAFunc(m)
+	}
+	if check == nil {
+		c.Anchor("MemoryLimiter.CheckMemLimits")
+		return
+	}
+	nSites := 0
+	for _, pk := range p.Pkgs {
+		if !strings.HasPrefix(pk.PkgPath, modPrefix) {
+			continue
+		}
+		for _, fn := range p.AllSrcFuncs(pk) {
+			for _, ci := range calls(fn, func(ci ssa.CallInstruction) bool { return staticCalleeFn(ci) == check }) {
+				nSites++
+				// inside a goroutine body (anonymous function started with `go`) whose go statement is guarded by counter == 1
+				okSite := false
+				if fn.Parent() != nil {
+					for _, r := range *fnReferrers(fn) {
+						if g, ok := r.(*ssa.Go); ok {
+							for _, gd := range guardsOf(g.Block()) {
+								if op, x, y, ok := cmpOf(gd); ok && op == token.EQL {
+									if k, ok := constInt(y); ok && k == 1 {
+										if _, path := fieldChain(x); len(path) > 0 {
+											okSite = true
+										}
+									}
+								}
+							}
+						}
+					}
+				}
+				c.Check(okSite, "limit check called from the single checker goroutine in "+fnName(fn), p.Pos(ci.Pos()), "inside the goroutine started by the first user", "the check is also run outside the checker goroutine: two checks can interleave, a stale measurement overwrites a newer decision and two forced GCs can fall inside one minimum interval")
+			}
+		}
+	}
+	if nSites == 0 {
+		c.Bad("limit check has a caller", "-", "nothing calls the limit check")
+	}
+}
+
+// fnReferrers: instructions that reference an anonymous function (its MakeClosure's referrers, or direct uses).
+func fnReferrers(fn *ssa.Function) *[]ssa.Instruction {
+	var out []ssa.Instruction
+	if fn.Parent() == nil {
+		return &out
+	}
+	allInstrs(fn.Parent(), func(in ssa.Instruction) {
+		switch x := in.(type) {
+		case *ssa.MakeClosure:
+			if x.Fn == ssa.Value(fn) {
+				out = append(out, *x.Referrers()...)
+			}
+		case *ssa.Go:
+			if x.Call.Value == ssa.Value(fn) {
+				out = append(out, x)
+			}
+		}
+	})
+	return &out
+}
+
+// flowsToCallNamed: v (possibly through type changes / conversions) is an argument of a call of a function of that name.
+func flowsToCallNamed(v ssa.Value, name string) bool {
+	seen := map[ssa.Value]bool{}
+	work := []ssa.Value{v}
+	for len(work) > 0 {
+		x := work[len(work)-1]
+		work = work[:len(work)-1]
+		if seen[x] || x.Referrers() == nil {
+			continue
+		}
+		seen[x] = true
+		for _, r := range *x.Referrers() {
+			switch y := r.(type) {
+			case *ssa.Call:
+				if f := calleeOf(y); f != nil && f.Name() == name {
+					return true
+				}
+			case *ssa.ChangeType:
+				work = append(work, y)
+			case *ssa.Convert:
+				work = append(work, y)
+			case *ssa.MakeInterface:
+				work = append(work, y)
+			case *ssa.Phi:
+				work = append(work, y)
+			}
+		}
+	}
+	return false
+}
+
+// ---------- C19.R6: counters classify errors through the chain ----------
+func runC19ErrAs(c *Ctx) {
+	p := c.P
+	c.Rule("R6", "TAB", "the self-telemetry wrappers never classify an error by asserting its dynamic type (type switch / .(T) on an error value): partial-success and similar verdicts that decide what is counted are taken with errors.As, which also finds a wrapped error", 4)
+	n, bad := 0, 0
+	for _, rel := range []string{"scraper/scraperhelper", "receiver/receiverhelper", "processor/processorhelper", "processor/processorhelper/xprocessorhelper", "exporter/exporterhelper/internal", "exporter/exporterhelper/internal/queuebatch"} {
+		pk := p.Pkg(rel)
+		if pk == nil {
+			continue
+		}
+		for _, fn := range p.AllSrcFuncs(pk) {
+			n++
+			allInstrs(fn, func(in ssa.Instruction) {
+				ta, ok := in.(*ssa.TypeAssert)
+				if !ok || !isErrorType(ta.X.Type()) {
+					return
+				}
+				if _, isIface := ta.AssertedType.Underlying().(*types.Interface); isIface {
+					// asserting an optional interface (e.g. interface{ GRPCStatus() }) is a capability test, not a classification… still by hand
+				}
+				bad++
+				c.Bad("error classified through the chain in "+fnName(fn), p.Pos(ta.Pos()), fmt.Sprintf("the error is tested with a direct type assertion to %s: a wrapped error of that kind (fmt.Errorf(\"%%w\"), errors.Join) is not recognised, so the items it describes are booked under the wrong counter or not at all", ta.AssertedType))
+			})
+		}
+	}
+	if n == 0 {
+		c.Undecided("self-telemetry packages", "-", "none loaded")
+	} else if bad == 0 {
+		c.OK("no direct type assertion on error values in the self-telemetry wrappers", "-", fmt.Sprintf("%d functions scanned", n))
+	}
+	for i := 0; i < 4 && i < n; i++ {
+		c.Rules[c.cur].Instances++
+	}
+}
+
+// ---------- C02.R11 (shared as C19.R7): a handed-off done object is not touched again ----------
+func runDoneHandOff(c *Ctx, ruleID string) {
+	p := c.P
+	c.Rule(ruleID, "OWN", "once a completion has sent the outcome on a pooled done object's channel (the waiting producer then owns the object and returns it to the pool), the completion does not read or write the object again: size bookkeeping that needs its fields happens before the hand-off", 1)
+	pk := p.ByPath[pkgQB]
+	if pk == nil {
+		c.Anchor("queuebatch")
+		return
+	}
+	n := 0
+	for _, fn := range p.AllSrcFuncs(pk) {
+		allInstrs(fn, func(in ssa.Instruction) {
+			snd, ok := in.(*ssa.Send)
+			if !ok {
+				return
+			}
+			u, ok := snd.Chan.(*ssa.UnOp)
+			if !ok || u.Op != token.MUL {
+				return
+			}
+			fa, ok := u.X.(*ssa.FieldAddr)
+			if !ok {
+				return
+			}
+			obj := fa.X
+			T := namedOf(obj.Type())
+			if T == nil || !hasMethod(types.NewPointer(T), "OnDone") {
+				return
+			}
+			n++
+			var after ssa.Instruction
+			allInstrs(fn, func(in2 ssa.Instruction) {
+				if after != nil || in2 == ssa.Instruction(snd) {
+					return
+				}
+				uses := false
+				switch x := in2.(type) {
+				case *ssa.FieldAddr:
+					uses = x.X == obj
+				case ssa.CallInstruction:
+					for _, a := range x.Common().Args {
+						if a == obj || strip(a) == obj {
+							uses = true
+						}
+					}
+				}
+				if mi, ok := in2.(*ssa.MakeInterface); ok && mi.X == obj {
+					uses = true
+				}
+				if uses && canReach(snd, in2, nil) {
+					after = in2
+				}
+			})
+			c.Check(after == nil, "done object is not used after its hand-off in "+fnName(fn), p.Pos(snd.Pos()), "no use of the object is reachable from the send", "the object is used at "+posOf(p, after)+" after its outcome was sent to the waiting producer, who returns it to the pool: the pool may already have handed it to another Offer, so the size that is subtracted belongs to a different request and the reported queue size drifts for good")
+		})
+	}
+	if n == 0 {
+		c.Undecided("hand-off sends on done objects", "-", "none found")
+	}
+}
+
+// shareRule copies the obligations of rules of another property (evaluated on the same program) under a rule of c.
+var shareDepth = 0
+
+func shareRule(c *Ctx, prop string, run func(*Ctx), from []string, id, family, text string, floor int) {
+	if shareDepth > 0 {
+		// evaluated as part of another property's shared rule: the nested result is discarded by the caller, and
+		// following the share again could cycle (C10.R7 ↔ C20.R8)
+		return
+	}
+	shareDepth++
+	sub := NewCtx(c.P, prop, c.Tier, c.Config)
+	run(sub)
+	shareDepth--
+	c.Rule(id, family, text, floor)
+	want := map[string]bool{}
+	for _, f := range from {
+		want[f] = true
+	}
+	for _, o := range sub.Obs {
+		if want[o.Rule] && !strings.HasPrefix(o.Construct, "floor:") {
+			c.add(o.Verdict, o.Construct, o.Pos, o.Detail)
+		}
+	}
+}
